@@ -134,6 +134,14 @@ fn main() {
         println!("agree={} rejected={} inconclusive={} disagree={} {:?}", ag, rej, inc, dis, whys);
         return;
     }
+    if args.len() >= 3 && args[1] == "c02-one" {
+        vh::pool::quiet_panics();
+        let src = if std::path::Path::new(&args[2]).exists() { std::fs::read_to_string(&args[2]).unwrap() } else { args[2].clone() };
+        let b = vh::qv::builtins(); let mods = vh::refsem::std_sources("/repo");
+        let h = std::thread::Builder::new().stack_size(512 << 20).spawn(move || match vh::c02::judge(&src, &b, &mods, None) { vh::c02::Verdict::Agree => println!("AGREE"), vh::c02::Verdict::Rejected => println!("REJECTED"), vh::c02::Verdict::Inconclusive(w) => println!("INCONCLUSIVE {}", w), vh::c02::Verdict::Disagree(c, r, e) => println!("DISAGREE {:?}\n  compiled  {}\n  reference {}", e, c, r) }).unwrap();
+        h.join().ok();
+        return;
+    }
     if args.len() >= 3 && args[1] == "ty" {
         let b = vh::qv::builtins();
         match vh::qv::compile(&args[2], &b) { Ok(cp) => println!("{}", vh::qv::show_type(&cp)), Err(e) => println!("compile error: {:?}", e) }
